@@ -1,0 +1,99 @@
+//go:build verif
+
+package node
+
+// Verification-only exports (build tag "verif") for the cron engine: the pure spec parser,
+// IsRunAt, and a cron object that is not attached to a node and whose minute timer is stopped,
+// so that an external harness can drive the scheduling decisions (AddJob / EnableJob /
+// DisableJob / RemoveJob / schedule(next) / spool) without waiting for wall-clock minutes.
+// Add-only; nothing here is compiled into a normal build.
+
+import (
+	"time"
+
+	"ergo.services/ergo/gen"
+)
+
+// VerifCronParse runs cronParseSpec and returns the three mask lists as raw uint64 values.
+func VerifCronParse(spec string) (minHourMonth []uint64, day []uint64, weekDay []uint64, err error) {
+	m, e := cronParseSpec(gen.CronJob{Spec: spec})
+	if e != nil {
+		return nil, nil, nil, e
+	}
+	for _, x := range m.MinHourMonth {
+		minHourMonth = append(minHourMonth, uint64(x))
+	}
+	for _, x := range m.Day {
+		day = append(day, uint64(x))
+	}
+	for _, x := range m.WeekDay {
+		weekDay = append(weekDay, uint64(x))
+	}
+	return minHourMonth, day, weekDay, nil
+}
+
+// VerifCronMatcher parses the spec once and returns cronSpecMask.IsRunAt as a closure.
+func VerifCronMatcher(spec string) (func(time.Time) bool, error) {
+	m, e := cronParseSpec(gen.CronJob{Spec: spec})
+	if e != nil {
+		return nil, e
+	}
+	return m.IsRunAt, nil
+}
+
+// VerifCronIsRunAt = cronParseSpec + cronSpecMask.IsRunAt.
+func VerifCronIsRunAt(spec string, t time.Time) (bool, error) {
+	f, e := VerifCronMatcher(spec)
+	if e != nil {
+		return false, e
+	}
+	return f(t), nil
+}
+
+// VerifCron is a real *cron (createCron) whose timer has been stopped before it could fire.
+type VerifCron struct {
+	c *cron
+}
+
+type verifCronNode struct {
+	gen.Node
+}
+
+func (verifCronNode) IsAlive() bool { return false }
+
+// VerifCronNew creates the cron exactly as node start does (createCron) and stops its timer.
+// Should the timer nevertheless fire, the stub node reports "not alive" and the tick returns at once.
+func VerifCronNew() *VerifCron {
+	c := createCron(verifCronNode{})
+	c.terminate()
+	return &VerifCron{c: c}
+}
+
+// Cron gives the public gen.Cron interface of the object.
+func (v *VerifCron) Cron() gen.Cron { return v.c }
+
+// Next returns cron.next.
+func (v *VerifCron) Next() time.Time {
+	v.c.RLock()
+	defer v.c.RUnlock()
+	return v.c.next
+}
+
+// Schedule calls cron.schedule(next): the tail of the minute tick (sets cron.next, spools due jobs).
+func (v *VerifCron) Schedule(next time.Time) { v.c.schedule(next) }
+
+// Drain pops the whole spool in order and reports, per popped entry, the job name and
+// whether the entry was disabled at that moment (the minute tick skips disabled entries and
+// runs the action of every other entry).
+func (v *VerifCron) Drain() (names []gen.Atom, disabled []bool) {
+	for {
+		item, ok := v.c.spool.Pop()
+		if ok == false {
+			break
+		}
+		cj := item.(*cronJob)
+		names = append(names, cj.job.Name)
+		disabled = append(disabled, cj.disable)
+	}
+	return names, disabled
+}
